@@ -65,3 +65,443 @@ def orc_c14(case, obs):
 
 prop("C14", ["c14_read_total_and_inverse", "c14_gen_inverse", "c14_wire_layout"], ["HDR"], gen_c14, [orc_c14],
      exhaustive="HDR: all 65536 header words and all 16 x 4096 (kind, label type, length) triples, every run")
+
+
+# ------------------------------------------------------------------------------------------------
+# helpers over ENC observations
+# ------------------------------------------------------------------------------------------------
+KNOWN_EXT = {0x0005: ("N", 3), 0x0007: ("N", 0), 0x0042: ("N", 5), 0x0081: ("F", 0), 0x0082: ("F", 0), 0x0033: ("F", 2),
+             0x0009: ("N", None)}
+
+
+class EncObs:
+    """one ENCAP / EEXT / EFRAG / EFRAGC observation, decoded"""
+
+    def __init__(self, ob):
+        self.raw = ob
+        self.panic = ob.startswith("PANIC")
+        self.skip = ob == "skip"
+        w, d = kv(ob)
+        self.ok = (not self.panic) and w and w[0] == "ok"
+        self.err = w[1] if (w and w[0] == "err") else None
+        self.status = w[1] if self.ok else None          # C | F
+        self.n = int(w[2]) if self.ok else None
+        self.ctx = tuple(int(x) for x in w[3:6]) if self.ok and self.status == "F" else None
+        self.pkt = bytes.fromhex(d["pkt"]) if self.ok and d.get("pkt", "-") != "-" else b""
+        self.tail = d.get("tail")
+        self.st = ob[ob.index(" st=") + 4:] if " st=" in ob else None
+
+
+def enc_ops(case, obs):
+    """yield (op tokens, EncObs, previous encapsulator state string) for the encap-like ops of a case"""
+    st = None
+    for op, ob in zip(case.ops, obs):
+        t = op.split(" ")
+        if t[0] in ("ENEW", "ERESET", "EDIS", "EEN", "EENMAX"):
+            st = ob[4:] if ob.startswith("enc ") else st
+            yield t, None, st
+        elif t[0] in ("ENCAP", "EEXT", "EFRAG", "EFRAGC"):
+            e = EncObs(ob)
+            yield t, e, st
+            if e.st is not None:
+                st = e.st
+        else:
+            yield t, None, st
+
+
+# ------------------------------------------------------------------------------------------------
+# C12 CRC
+# ------------------------------------------------------------------------------------------------
+def orc_c12(case, obs):
+    bad = []
+    last = None   # (pdu, ptype) of the last ENCAP/EEXT
+    ctx = None
+    for (t, e, _), ob in zip(enc_ops(case, obs), obs):
+        if t[0] == "CRC":
+            exp = gse_crc(tok_bytes(t[1]), int(t[2]), int(t[3]), tok_bytes(t[4]))
+            if ob != str(exp):
+                bad.append("DefaultCrc(%s) = %s, CRC-32/MPEG-2 = %d" % (" ".join(t[1:])[:80], ob, exp))
+        elif t[0] in ("ENCAP", "EEXT") and e is not None and e.ok and e.status == "F":
+            pdu, pt = tok_bytes(t[1]), int(t[3])
+            p = parse_packet(e.pkt, KNOWN_EXT_FIXED)
+            if isinstance(p, str) or p.kind != "F":
+                continue  # C06's business
+            written = label_bytes(p.label)
+            exp = gse_crc(pdu, pt, p.total, written)
+            if e.ctx[1] != exp:
+                bad.append("context CRC %d != CRC-32/MPEG-2 %d over total=%d ptype=%d label=%s" % (e.ctx[1], exp, p.total, pt, p.label))
+            ctx = e.ctx
+        elif t[0] in ("EFRAG", "EFRAGC") and e is not None and e.ok and e.status == "C":
+            crc = int(t[3]) if t[0] == "EFRAG" else (ctx[1] if ctx else None)
+            if crc is not None and e.pkt[-4:] != crc.to_bytes(4, "big"):
+                bad.append("end packet trailer %s != context CRC %08x" % (e.pkt[-4:].hex(), crc))
+        if t[0] in ("EFRAG", "EFRAGC") and e is not None and e.ok and e.status == "F":
+            ctx = e.ctx
+    return bad
+
+
+KNOWN_EXT_FIXED = {k: v for k, v in KNOWN_EXT.items() if v[1] is not None}
+
+
+def gen_c12(rng, t):
+    out = fam_crc(rng, 200 * t)
+    # fragmented sends whose context CRC and trailer are checked against the independent CRC
+    for i in range(300 * t):
+        c = Case("c12_frag%d" % i)
+        lab = rng.choice(LABELS)
+        pl = rng.range(1, 300)
+        enc_prelude(rng, c, lab)
+        c.add("ENCAP %s %d %d %s %d 5" % (pdu_tok(rng, pl), rng.below(256), rng.choice([0x0800, 0xFFFF, 0x0081]), lab,
+                                         rng.range(7 + lab_len(lab), 8 + lab_len(lab) + pl // 2)))
+        for _ in range(4):
+            c.add("EFRAGC %d 1" % rng.choice([8, 20, 400]))
+        out.append(c)
+    return out
+
+
+prop("C12", ["c12_table", "c12_default_crc", "c12_spec_unfold"], ["CRC"], gen_c12, [orc_c12],
+     exhaustive="CRC: every table index at three byte positions; c12_table is proved for all 256 generated entries")
+
+
+# ------------------------------------------------------------------------------------------------
+# C09 totality and failure atomicity
+# ------------------------------------------------------------------------------------------------
+def orc_c09(case, obs):
+    bad = []
+    for (t, e, st), ob in zip(enc_ops(case, obs), obs):
+        if t[0] in ("PENCAP", "PFRAG") and ob.startswith("PANIC"):
+            bad.append("%s panics" % " ".join(t)[:100])
+        if e is None or e.skip:
+            continue
+        what = " ".join(t)[:120]
+        if e.panic:
+            bad.append("panic: %s" % what)
+            continue
+        if e.err is not None:
+            if e.tail != "1":
+                bad.append("failed call modified the buffer: %s" % what)
+            if e.st is not None and st is not None and e.st != st:
+                bad.append("failed call changed the encapsulator (%s -> %s): %s" % (st, e.st, what))
+        if t[0] in ("ENCAP", "EEXT"):
+            pl = len(tok_bytes(t[1]))
+            pt = int(t[3])
+            if e.ok and t[4] == ZERO6:
+                bad.append("packet produced for the zero 6-byte label")
+            if e.ok and 0x100 <= pt <= 0x5FF:
+                bad.append("packet produced for protocol type %#x" % pt)
+            if e.ok:
+                ll = LT_LEN[(e.pkt[0] >> 4) & 3]
+                if pl + 2 + ll > 65535:
+                    bad.append("packet produced for a %d-byte PDU (total length > 65535)" % pl)
+        if t[0] == "EFRAG" and e.ok and int(t[4]) > len(tok_bytes(t[1])):
+            bad.append("encap_frag accepted a context beyond the PDU")
+    return bad
+
+
+def gen_c09(rng, t):
+    out = []
+    # failing call in the middle of a history: the next packet must be what it would have been
+    for i in range(400 * t):
+        a, b = Case("c09_with%d" % i), Case("c09_without%d" % i)
+        pre = ["ENEW"]
+        if rng.chance(0.3):
+            pre.append("EENMAX %d" % rng.choice([1, 2]))
+        for _ in range(rng.range(0, 3)):
+            pre.append("ENCAP g5.1 0 2048 %s 40 1" % rng.choice([L6A, L6B, L3A, "B"]))
+        lab = rng.choice([L6A, L6B, L3A])
+        fail = rng.choice(["ENCAP g5.1 0 2048 %s %d 1" % (lab, rng.range(0, 6)),
+                           "ENCAP g66000.1 0 2048 %s 70 1" % lab,
+                           "EEXT g5.1 0 2048 %s 3 1 0200:0102" % lab,
+                           "ENCAP g5.1 0 256 %s 40 1" % lab,
+                           "ENCAP g5.1 0 2048 %s 40 1" % ZERO6])
+        nxt = "ENCAP g7.2 1 2048 %s %d 2" % (rng.choice([lab, L6A, L3A]), rng.choice([12, 40]))
+        a.ops = pre + [fail, nxt]
+        b.ops = pre + [nxt]
+        a.meta["pair"] = b.name
+        out += [a, b]
+    return out
+
+
+def orc_c09_pairs(cases_by_name, impl):
+    """the packet after a failed call equals the packet without it"""
+    bad = []
+    for name, c in cases_by_name.items():
+        if "pair" not in c.meta:
+            continue
+        a, b = impl.get(name), impl.get(c.meta["pair"])
+        if not a or not b:
+            continue
+        fa = EncObs(a[-2])
+        if fa.err is None:
+            continue
+        if a[-1] != b[-1]:
+            bad.append((c, "after the failed call %r the next call returns %r instead of %r" % (c.ops[-2][:60], a[-1][:120], b[-1][:120])))
+    return bad
+
+
+prop("C09", ["c09_reachable_wf", "c09_total_encap", "c09_total_encap_frag", "c09_total_previews", "c09_atomic_encap",
+             "c09_atomic_encap_frag", "c09_rejects", "c09_rejects_frag"],
+     ["ENC", "PRE"], gen_c09, [orc_c09], pair_oracle=orc_c09_pairs)
+
+
+# ------------------------------------------------------------------------------------------------
+# C11 progress and partition
+# ------------------------------------------------------------------------------------------------
+def orc_c11(case, obs):
+    bad = []
+    pdu = None
+    ctx = None       # (fid, crc, len) the sender currently holds
+    calls_since_first = 0
+    rem_at_first = None
+    all_big = True
+    for (t, e, _), ob in zip(enc_ops(case, obs), obs):
+        if e is None or e.skip or e.panic:
+            continue
+        if t[0] in ("ENCAP", "EEXT"):
+            pdu, ctx = tok_bytes(t[1]), None
+            if e.ok and e.status == "F":
+                p = parse_packet(e.pkt, KNOWN_EXT_FIXED)
+                if isinstance(p, str) or p.kind != "F":
+                    continue
+                fid, crc, ln = e.ctx
+                if ln != len(p.payload):
+                    bad.append("first fragment carries %d payload bytes, context says %d" % (len(p.payload), ln))
+                if p.payload != pdu[:len(p.payload)]:
+                    bad.append("first fragment payload is not the PDU prefix")
+                if fid != int(t[2]):
+                    bad.append("context frag id %d != %s" % (fid, t[2]))
+                ctx = e.ctx
+                calls_since_first, rem_at_first, all_big = 0, len(pdu) - ln, True
+        elif t[0] == "EFRAGC" and ctx is not None and pdu is not None and len(pdu) <= 65535:
+            fid, crc, ln = ctx
+            bl = int(t[1])
+            calls_since_first += 1
+            all_big = all_big and bl >= 7
+            rem = len(pdu) - ln
+            if e.err is not None:
+                can_end = bl >= rem + 7 and rem <= 4090
+                if can_end or (bl >= 4 and rem >= 1):
+                    bad.append("usable %d-byte buffer rejected (%s) with %d bytes left" % (bl, e.err, rem))
+                continue
+            p = parse_packet(e.pkt)
+            if isinstance(p, str):
+                bad.append("continuation packet does not parse: %s" % p)
+                ctx = None
+                continue
+            if p.fid != fid:
+                bad.append("fragment id changed %d -> %d" % (fid, p.fid))
+            if e.status == "C":
+                if p.kind != "E" or p.payload != pdu[ln:] or p.crc != crc:
+                    bad.append("end packet does not carry the rest of the PDU and the context CRC")
+                if all_big and calls_since_first > rem_at_first + 1:
+                    bad.append("%d calls with buffers >= 7 bytes for %d remaining bytes" % (calls_since_first, rem_at_first))
+                ctx = None
+            else:
+                nf, ncrc, nln = e.ctx
+                if p.kind != "I" or len(p.payload) < 1:
+                    bad.append("continuation answered with an empty / non-intermediate packet")
+                if nln != ln + len(p.payload) or p.payload != pdu[ln:nln]:
+                    bad.append("context advanced %d -> %d but the packet carries %d bytes / wrong slice" % (ln, nln, len(p.payload)))
+                if nf != fid or ncrc != crc:
+                    bad.append("frag id / crc changed in the context")
+                ctx = e.ctx
+                if all_big and calls_since_first > rem_at_first + 1:
+                    bad.append("not finished after %d calls with buffers >= 7 bytes (%d bytes were left)" % (calls_since_first, rem_at_first))
+    return bad
+
+
+def gen_c11(rng, t):
+    out = []
+    for i in range(700 * t):
+        c = Case("c11_%d" % i)
+        lab = rng.choice(LABELS + ["R"])
+        pl = rng.choice([rng.range(1, 40), rng.range(1, 40), rng.range(40, 400), near(rng, 4090, 4096, 8200, lo=1)])
+        c.add("ENEW")
+        if lab == "R":
+            c.add("ENCAP g3.1 0 2048 %s 40 1" % L6A)
+        first = rng.range(7 + lab_len(lab), 7 + lab_len(lab) + min(pl, 30))
+        c.add("ENCAP %s %d 2048 %s %d 3" % (pdu_tok(rng, pl), rng.below(256), lab, first))
+        mode = rng.below(4)
+        for k in range(min(pl + 3, 60)):
+            if mode == 0:
+                c.add("EFRAGC 7 1")          # slowest legal schedule: one byte per call, then the end packet
+            elif mode == 1:
+                c.add("EFRAGC %d 1" % rng.choice([4, 5, 6, 7, 8, 13]))
+            elif mode == 2:
+                c.add("EFRAGC %d 1" % rng.choice([0, 2, 3, 4, 9, 20, 100, 4097, 4098, 6000]))
+            else:
+                c.add("EFRAGC %d 1" % rng.range(7, 40))
+        out.append(c)
+    return out
+
+
+prop("C11", ["c11_first_ctx", "c11_step", "c11_partition", "c11_bound", "c11_useless_rejected"], ["ENC"], gen_c11, [orc_c11])
+
+
+# ------------------------------------------------------------------------------------------------
+# C06 well-formed, length-accurate packets
+# ------------------------------------------------------------------------------------------------
+def orc_c06(case, obs):
+    bad = []
+    for (t, e, _), ob in zip(enc_ops(case, obs), obs):
+        if e is None or not e.ok:
+            continue
+        what = " ".join(t)[:100]
+        bl = int(t[5]) if t[0] in ("ENCAP", "EEXT", "EFRAG") else int(t[1])
+        if e.n > bl:
+            bad.append("reported length %d exceeds the %d-byte buffer: %s" % (e.n, bl, what))
+            continue
+        if e.tail != "1":
+            bad.append("bytes at or beyond the reported length were modified: %s" % what)
+        p = parse_packet(e.pkt, KNOWN_EXT_FIXED)
+        if isinstance(p, str):
+            bad.append("emitted packet does not parse (%s): %s -> %s" % (p, what, e.pkt[:12].hex()))
+            continue
+        if p.gse_len + 2 != e.n or p.gse_len > 4095:
+            bad.append("GSE length field %d but %d bytes reported: %s" % (p.gse_len, e.n, what))
+        exp_kind = {"ENCAP": {"C": "C", "F": "F"}, "EEXT": {"C": "C", "F": "F"}, "EFRAG": {"C": "E", "F": "I"},
+                    "EFRAGC": {"C": "E", "F": "I"}}[t[0]][e.status]
+        if p.kind != exp_kind:
+            bad.append("start/end bits say %s, status says %s: %s" % (p.kind, exp_kind, what))
+        if t[0] in ("ENCAP", "EEXT"):
+            pdu, fid, pt, lab = tok_bytes(t[1]), int(t[2]), int(t[3]), t[4]
+            if getattr(p, "unknown_mandatory", None) is not None:
+                continue
+            if p.label != lab and not (p.label == "R"):
+                bad.append("label on the wire %s, passed %s" % (p.label, lab))
+            if p.ptype != pt and t[0] == "ENCAP":
+                bad.append("protocol type on the wire %d, passed %d" % (p.ptype, pt))
+            if p.kind == "F":
+                if p.fid != fid:
+                    bad.append("frag id on the wire %d" % p.fid)
+                if p.total != 2 + LT_LEN[p.lt] + len(pdu):
+                    bad.append("total length %d != 2 + %d + %d" % (p.total, LT_LEN[p.lt], len(pdu)))
+            if p.payload != pdu[:len(p.payload)] or (p.kind == "C" and p.payload != pdu):
+                bad.append("payload is not the PDU (prefix): %s" % what)
+        else:
+            if p.lt != 3:
+                bad.append("continuation packet with label type %d" % p.lt)
+    return bad
+
+
+prop("C06", ["c06_encap", "c06_encap_frag"], ["ENC", "ENCX"], no_cases, [orc_c06])
+
+
+# ------------------------------------------------------------------------------------------------
+# C18 previews
+# ------------------------------------------------------------------------------------------------
+def orc_c18(case, obs):
+    bad = []
+    for i, (op, ob) in enumerate(zip(case.ops, obs)):
+        t = op.split(" ")
+        if t[0] not in ("PENCAP", "PFRAG") or i + 1 >= len(case.ops):
+            continue
+        nxt = case.ops[i + 1].split(" ")
+        e = EncObs(obs[i + 1])
+        if ob.startswith("PANIC") or e.panic:
+            bad.append("panic in %s" % op[:80])
+            continue
+        w = ob.split(" ")
+        if t[0] == "PENCAP" and nxt[0] == "ENCAP":
+            if e.ok and (e.pkt[0] >> 4) & 3 == 3 and t[3] != "R":
+                continue  # substitution applied
+            if e.err is not None:
+                if w[:2] != ["err", e.err]:
+                    bad.append("encap %s, preview %s: %s" % (e.err, ob, op[:80]))
+            else:
+                kind = {"C": "C", "F": "F"}[e.status]
+                if w[0] != "ok" or w[1] != kind or int(w[3]) != e.n:
+                    bad.append("encap %s %d, preview %s: %s" % (e.status, e.n, ob, op[:80]))
+        if t[0] == "PFRAG" and nxt[0] == "EFRAG":
+            if e.err is not None:
+                if w[:2] != ["err", e.err]:
+                    bad.append("encap_frag %s, preview %s" % (e.err, ob))
+            else:
+                kind = {"C": "E", "F": "I"}[e.status]
+                payload = e.n - (7 if kind == "E" else 3)
+                if w[0] != "ok" or w[1] != kind or int(w[2]) != payload or int(w[3]) != e.n:
+                    bad.append("encap_frag %s %d (payload %d), preview %s" % (e.status, e.n, payload, ob))
+    return bad
+
+
+prop("C18", ["c18_preview", "c18_frag_preview"], ["PRE"], no_cases, [orc_c18])
+
+
+# ------------------------------------------------------------------------------------------------
+# C15 re-use policy
+# ------------------------------------------------------------------------------------------------
+def orc_c15(case, obs):
+    bad = []
+    enabled, maxn, run = True, 0, 0
+    prev = None      # label carried / stood for by the immediately preceding emitted start/complete packet
+    for (t, e, _), ob in zip(enc_ops(case, obs), obs):
+        if t[0] == "ENEW":
+            enabled, maxn, run, prev = True, 0, 0, None
+        elif t[0] == "ERESET":
+            prev = None
+        elif t[0] == "EDIS":
+            enabled, maxn, run = False, 0, 0
+        elif t[0] == "EEN":
+            enabled, maxn, run = True, 0, 0
+        elif t[0] == "EENMAX":
+            enabled, maxn, run = True, int(t[1]), 0
+        elif t[0] in ("ENCAP", "EEXT") and e is not None and e.ok:
+            lab = t[4]
+            lt = (e.pkt[0] >> 4) & 3
+            if lab == "R":
+                continue            # the caller asked for the marker: outside the policy clauses
+            if lab == "B":
+                prev, run = None, 0
+                continue
+            if lt == 3:             # substituted
+                if not enabled:
+                    bad.append("re-use marker substituted while re-use is disabled: %s" % " ".join(t)[:80])
+                if prev != lab:
+                    bad.append("re-use marker substituted for %s but the preceding packet carried %s" % (lab, prev))
+                run += 1
+                if maxn > 0 and run > maxn:
+                    bad.append("%d consecutive re-use packets with a maximum of %d" % (run, maxn))
+            else:
+                prev, run = lab, 0
+    return bad
+
+
+def gen_c15(rng, t):
+    out = []
+    for i in range(600 * t):
+        c = Case("c15_%d" % i)
+        c.add("ENEW")
+        labs = [L6A, L6A, L6A, L6B, L3A, "B", "R"]
+        for _ in range(rng.range(3, 30)):
+            r = rng.below(20)
+            if r < 13:
+                lab = rng.choice(labs)
+                kind = rng.below(10)
+                if kind < 7:
+                    c.add("ENCAP g6.1 0 2048 %s 40 1" % lab)
+                elif kind < 8:
+                    c.add("ENCAP g6.1 0 2048 %s %d 1" % (lab, rng.range(0, 8)))      # too small: fails or fragments
+                elif kind < 9:
+                    c.add("ENCAP g66000.1 0 2048 %s 80 1" % lab)                      # PDU too long: fails late
+                else:
+                    c.add("EEXT g6.1 0 2048 %s 60 1 0200:0102" % lab)
+            elif r < 14:
+                c.add("ERESET")
+            elif r < 15:
+                c.add("EDIS")
+            elif r < 16:
+                c.add("EEN")
+            else:
+                c.add("EENMAX %d" % rng.choice([1, 2, 3, 255]))
+        out.append(c)
+    # counter wrap: long runs with max 255
+    c = Case("c15_long")
+    c.add("ENEW", "EENMAX 255")
+    for _ in range(600):
+        c.add("ENCAP g2.1 0 2048 %s 20 1" % L6A)
+    out.append(c)
+    return out
+
+
+prop("C15", ["c15_link", "c15_invariant", "c15_disabled", "c15_sub_only_same", "c15_after_reset_or_bcast", "c15_max"],
+     ["ENC"], gen_c15, [orc_c15])
